@@ -162,3 +162,35 @@ Lemma between_homes :
   between (king_home Black) (rook_home Black false) = [61; 62] /\
   between (king_home Black) (rook_home Black true) = [59; 58; 57].
 Proof. vm_compute. repeat split. Qed.
+
+(* The part of [valid] that the successor theorems actually use (and that legal moves provably keep):
+   64 squares, one king per side, the side not to move is not in check, the en-passant target is
+   consistent (incl. the predecessor condition). *)
+Definition valid_core (p : pos) : bool :=
+  (length (at_ p) =? 64)%nat && (count p White King =? 1)%Z && (count p Black King =? 1)%Z &&
+  negb (in_check_spec p (flip (turn p))) && ep_ok p.
+
+Lemma valid_core_parts p : valid_core p = true ->
+  length (at_ p) = 64%nat /\ (forall c, count p c King = 1%Z) /\
+  in_check_spec p (flip (turn p)) = false /\ ep_ok p = true.
+Proof.
+  unfold valid_core. intros H. repeat (apply andb_true_iff in H; destruct H as [H ?]).
+  apply Nat.eqb_eq in H. apply Z.eqb_eq in H3, H2. apply negb_true_iff in H1.
+  repeat split; try assumption. intros []; assumption.
+Qed.
+
+Lemma material_king' p c : material_ok p c = true -> (count p c King =? 1)%Z = true.
+Proof. unfold material_ok. intros H. apply andb_true_iff in H. destruct H as [H _]. exact H. Qed.
+
+Lemma valid_valid_core p : valid p = true -> valid_core p = true.
+Proof.
+  intros H. destruct (valid_parts p H) as [H1 [H2 [H3 [_ [H5 [_ H7]]]]]].
+  apply material_king' in H2. apply material_king' in H3.
+  unfold valid_core.
+  apply andb_true_iff; split; [apply andb_true_iff; split; [apply andb_true_iff; split; [apply andb_true_iff; split|]|]|].
+  - apply Nat.eqb_eq. exact H1.
+  - exact H2.
+  - exact H3.
+  - apply negb_true_iff. exact H5.
+  - exact H7.
+Qed.
